@@ -30,6 +30,64 @@ type Suite struct {
 	Gen func(r *Rng, n int, tier string) []Case
 	// Exec runs one case. It must return len(ops) observations.
 	Exec func(ops []string) []string
+
+	// Interactive suites (stateful worlds whose next op depends on what the implementation did):
+	// NewStepper creates an executor for one case; GenStep generates case number idx by calling
+	// step(op), which executes the op on the real code and returns its observation. Ops stay
+	// replayable: Exec is derived from NewStepper.
+	NewStepper func() Stepper
+	GenStep    func(r *Rng, idx int, tier string, step func(op string) string)
+}
+
+// Stepper executes ops of one case one at a time.
+type Stepper interface {
+	Step(op string) string
+	Close()
+}
+
+func (s *Suite) exec(ops []string) []string {
+	if s.Exec != nil {
+		return s.Exec(ops)
+	}
+	st := s.NewStepper()
+	defer st.Close()
+	var obs []string
+	for _, op := range ops {
+		obs = append(obs, st.Step(op))
+	}
+	return obs
+}
+
+// runInteractive generates and executes case idx, writing each step as it happens (so that a crash of
+// the process leaves the ops executed so far in the transcript).
+func runInteractive(s *Suite, seed uint64, idx int, tier string, w *bufio.Writer) {
+	fmt.Fprintf(w, "case %s-%d\n", s.Name, idx)
+	w.Flush()
+	st := s.NewStepper()
+	defer st.Close()
+	dead := false
+	step := func(op string) string {
+		if dead {
+			return "dead"
+		}
+		fmt.Fprintf(w, "> %s\n", op)
+		w.Flush()
+		var o string
+		func() {
+			defer func() {
+				if r := recover(); r != nil {
+					msg := strings.ReplaceAll(fmt.Sprint(r), "\n", " ")
+					o = "panic:" + panicSite(string(debug.Stack())) + ":" + msg
+					dead = true
+				}
+			}()
+			o = st.Step(op)
+		}()
+		fmt.Fprintf(w, "< %s\n", strings.ReplaceAll(o, "\n", " "))
+		w.Flush()
+		return o
+	}
+	s.GenStep(NewRng(seed, fmt.Sprintf("%s-%d", s.Name, idx)), idx, tier, step)
 }
 
 var suites = map[string]*Suite{}
@@ -52,7 +110,7 @@ func safeExec(s *Suite, c Case, w *bufio.Writer) {
 				}
 			}
 		}()
-		obs = s.Exec(c.Ops)
+		obs = s.exec(c.Ops)
 	}()
 	for i, op := range c.Ops {
 		o := "missing-observation"
@@ -144,6 +202,12 @@ func main() {
 	var cases []Case
 	switch mode {
 	case "gen":
+		if s.GenStep != nil {
+			for i := *from; i < *n; i++ {
+				runInteractive(s, *seed, i+1, *tier, w)
+			}
+			return
+		}
 		cases = s.Gen(NewRng(*seed, name), *n, *tier)
 	case "replay":
 		var err error
